@@ -433,13 +433,17 @@ class LogicalType(type):  # noqa
                     return value
 
             xor = None
+            origin_value = value
 
             for con in cls.args:
                 with context.enter(cls.combinator) as new_context:
                     try:
-                        value = new_context.transformer(value, con)
+                        # every condition is tested against the original input (not the output of
+                        # a previous condition), so the verdict does not depend on the order of the conditions
+                        val = new_context.transformer(origin_value, con)
                         if xor is None:
                             xor = con
+                            value = val
                         else:
                             context.handle_error(
                                 exc.OneOfViolatedError(
